@@ -339,11 +339,12 @@ func (e *composerEnv) patchJSON(p *CPatch) map[string]interface{} {
 		return map[string]interface{}{"action": p.A, "uris": uris}
 	case "replace":
 		d := map[string]interface{}{}
-		if len(p.Ents) > 0 {
+		// (an empty list is left out or spelled [], depending on the other list)
+		if len(p.Ents) > 0 || len(p.Ents2)%2 == 1 {
 			d["publicKeys"] = ents(p.Ents, e.keyJSON)
 		}
 
-		if len(p.Ents2) > 0 {
+		if len(p.Ents2) > 0 || len(p.Ents)%2 == 1 {
 			d["services"] = ents(p.Ents2, e.svcJSON)
 		}
 
@@ -446,9 +447,27 @@ func (e *composerEnv) project(doc document.Document, nOther int) (CDoc, []string
 
 	d.norm(nOther)
 
+	decoys := e.decoysLocked()
+	present := 0
+
+	for name := range decoys {
+		if _, ok := doc[name]; ok {
+			present++
+		}
+	}
+
 	for name, v := range doc {
 		switch name {
 		case "publicKey", "service", "alsoKnownAs":
+			continue
+		}
+
+		// decoy members (VERIF_DECOYS): all there and untouched, or all gone (a replace patch starts a new document)
+		if dv, isDecoy := decoys[name]; isDecoy {
+			if present != len(decoys) || digestJSON(v) != digestJSON(generic(dv)) {
+				extras = append(extras, name+" (a member that only resembles keys / services was changed)")
+			}
+
 			continue
 		}
 
@@ -477,6 +496,40 @@ func (e *composerEnv) project(doc document.Document, nOther int) (CDoc, []string
 	sort.Strings(extras)
 
 	return d, extras
+}
+
+// decoys: members of the initial document that resemble the key and service lists without being them (the names the
+// resolved document uses, plurals, other letter case) - only with VERIF_DECOYS=1
+var withDecoys = os.Getenv("VERIF_DECOYS") == "1"
+
+func (e *composerEnv) decoys() map[string]interface{} {
+	e.mu.Lock()
+	defer e.mu.Unlock()
+
+	return e.decoysLocked()
+}
+
+func (e *composerEnv) decoysLocked() map[string]interface{} {
+	if !withDecoys {
+		return nil
+	}
+
+	vm := func(id string, n int) map[string]interface{} {
+		k := e.pool.Get("p256", fmt.Sprintf("decoy%d", n))
+
+		return map[string]interface{}{"id": id, "type": "JsonWebKey2020", "purposes": []interface{}{"authentication"},
+			"publicKeyJwk": map[string]interface{}{"kty": "EC", "crv": "P-256", "x": k.JWK.X, "y": k.JWK.Y}}
+	}
+
+	svc := map[string]interface{}{"id": "s1", "type": "Decoy", "serviceEndpoint": "https://decoy.example/"}
+
+	return map[string]interface{}{
+		"verificationMethod": []interface{}{vm("vm1", 1), vm("k1", 2), vm("k2", 3)},
+		"publicKeys":         []interface{}{vm("k1", 4)},
+		"services":           []interface{}{svc},
+		"Service":            []interface{}{svc},
+		"authentication":     []interface{}{"k1", "#k2"},
+	}
 }
 
 type cdocState struct {
@@ -570,6 +623,11 @@ func (e *composerEnv) stateFor(c *docCache, path []CStep) *cdocState {
 
 	if len(path) == 0 {
 		d := document.Document{}
+
+		for name, v := range e.decoys() {
+			d[name] = v
+		}
+
 		cs = &cdocState{doc: d, digest: digestJSON(d)}
 	} else {
 		// a step the specification says fails leaves the document as it was; what the code does
